@@ -4,6 +4,7 @@ pub mod c02;
 pub mod c03;
 pub mod c04;
 pub mod c06;
+pub mod c13;
 
 use crate::explore::{Limits, Violation};
 use crate::world::{Outcome, Scenario};
@@ -26,6 +27,7 @@ pub fn sim_check(id: &str, tier: &str, _seed: i64) -> Option<SimCheck> {
         "C03" => Some(c03::build(tier)),
         "C04" => Some(c04::build(tier)),
         "C06" => Some(c06::build(tier)),
+        "C13" => Some(c13::build(tier)),
         _ => None,
     }
 }
@@ -34,6 +36,7 @@ pub fn sim_check(id: &str, tier: &str, _seed: i64) -> Option<SimCheck> {
 pub fn other_parts(id: &str, tier: &str, _seed: i64) -> Vec<crate::report::Part> {
     match id {
         "C06" => vec![crate::enumc::c06::run(tier)],
+        "C13" => vec![crate::enumc::c13::run(tier)],
         _ => vec![],
     }
 }
